@@ -184,6 +184,13 @@ func (d *clientStreamDownloader) runLowLatency(ctx context.Context) error {
 			payload:  byts,
 		})
 
+		// a server that makes parts available faster than they are played
+		// must not cause unlimited requests and unlimited buffering.
+		ok := d.segmentQueue.waitUntilSizeIsBelow(ctx, clientLowLatencyMaxQueuedParts)
+		if !ok {
+			return fmt.Errorf("terminated")
+		}
+
 		pl, err = d.downloadPlaylist(ctx, d.firstPlaylist.ServerControl.CanSkipUntil != nil)
 		if err != nil {
 			return err
